@@ -21,6 +21,13 @@ Three monitors (DESIGN.md section 2, C09):
      `regenerate --lazy` twice and twice triggered by the back end (an input
      made newer, `make Makefile` / reference `ninja build.ninja`), under E1/E2;
      then `env`, `run -- env -0`, `run -I -- env -0` under E2.
+     Inside every one of those bfg9000 processes vf/mon/spawnmon.py records the
+     environment handed to each child process (audit hook on subprocess.Popen);
+     for every name whose ambient value differs from the saved ones the child
+     must not show the ambient value.  The project has include directories, so
+     the compiler's default-directory probe (a helper run with extra variables)
+     is reached; 15% of the cases use the real gcc with a C_INCLUDE_PATH chosen
+     at configure time so that the probe's answer decides about a -I.
      Oracles: build files byte-identical across the three generations; the
      snapshot holds what was chosen; env/run print the variables predicted by a
      plain-dict model of the tool chain file applied to E1 (-I: E1 itself).
@@ -91,6 +98,7 @@ def floors(tier):
         'rt:old-version-loads': 500 if q else 10000,
         'rt:calibration-v4-shape': 1,
         'e2e:configure': 40 if q else 400,
+        'e2e:program-lookup-in-buildfile': 40 if q else 400,
         'e2e:regenerate-plain': 80 if q else 800,
         'e2e:regenerate-lazy-cli': 70 if q else 700,
         'e2e:regenerate-lazy-backend': 50 if q else 500,
@@ -101,6 +109,10 @@ def floors(tier):
         'e2e:env': 30 if q else 300,
         'e2e:run': 30 if q else 300,
         'e2e:run-initial': 30 if q else 300,
+        'spawn:process-reports': 200 if q else 2000,
+        'spawn:judged': 600 if q else 6000,
+        'spawn:extra-env-probe-judged': 100 if q else 1000,
+        'spawn:marker-comparisons': 5000 if q else 50000,
         'mon:subject-reports': 200 if q else 2000,
         'mon:subject-evals': 600 if q else 6000,
         'mon:toolchain-mutations': 300 if q else 3000,
@@ -827,8 +839,15 @@ PROJECT = {
     'build.bfg': (
         "project('p', '1.0')\n"
         "lib = library('foo', files=['foo.c'])\n"
-        "exe = executable('prog', files=['main.c'], libs=[lib])\n"
+        "incs = ['include']\n"
+        "if env.getvar('C09_SDK'):\n"
+        "    incs.append(header_directory(env.getvar('C09_SDK')))\n"
+        "exe = executable('prog', files=['main.c'], includes=incs, libs=[lib])\n"
         "install(exe, lib)\n"
+        "# a program looked up at script time: its absolute path lands in recipes\n"
+        "tool = system_executable('mytool')\n"
+        "command('usetool', cmd=[tool, 'arg'])\n"
+        "build_step('tool.out', cmd=[tool, '--touch', 'tool.out', '--end'])\n"
         "command('showvar', cmd=['vrec', env.getvar('MYVAR', '<unset>'),\n"
         "        env.getvar('lower.var-é', '<unset>'), argv.name, str(argv.fast),\n"
         "        argv.tag])\n"),
@@ -838,6 +857,7 @@ PROJECT = {
         "argument('tag', default='', help='a tag')\n"),
     'main.c': 'int foo(void);\nint main(void) { return foo(); }\n',
     'foo.c': 'int foo(void) { return 0; }\n',
+    'include/foo.h': 'int foo(void);\n',
 }
 E_VARNAMES = ['MYVAR', 'lower.var-é', 'JUNK_1', 'ÜNI', 'X.Y-Z', '_u', 'EMPTY',
               'CPPFLAGS', 'LDFLAGS', 'LDLIBS', 'CFLAGS']
@@ -1161,15 +1181,29 @@ def gen_e2e(rng, idx):
         ['P2', '/bin', '/usr/bin', 'VENV'],
         ['DECOY', 'BIN', 'VENV', '/usr/bin', '/bin'],
     ])
+    for k in ('C_INCLUDE_PATH', 'CPATH', 'LIBRARY_PATH', 'PKG_CONFIG_PATH'):
+        # compiler/pkg-config relevant poison: must never reach a helper command
+        if rng.random() < 0.5:
+            e2['set'][k] = '<S>/poison/' + k.lower()
+    tc_ops = gen_tc_ops(rng, sensitive) if has_tc else None
+    realcc = rng.random() < 0.15
+    if realcc:
+        # the real gcc, with a compiler-default include directory chosen through
+        # C_INCLUDE_PATH at configure time and named again by the project: the
+        # default-directory probe (run with extra variables) decides about a -I
+        e1.update({'CC': 'gcc', 'C_INCLUDE_PATH': '<S>/sdk/include',
+                   'C09_SDK': '<S>/sdk/include'})
+        if tc_ops is not None:
+            tc_ops = [o for o in tc_ops if o[0] != 'compiler']
     return {
-        'kind': 'e2e', 'idx': idx, 'backend': backend,
+        'kind': 'e2e', 'idx': idx, 'backend': backend, 'realcc': realcc,
         # a space in srcdir breaks the Make back end's own regeneration rule
         # (C04's business), so it is the rarer choice
         'srcname': rng.choice(['src', 'pröj', 'src', 'pröj', 's r c']),
         'buildname': rng.choice(['build', 'b d', 'b-é', 'src/../bld']),
         'tcname': rng.choice(['tc.bfg', 'tool chain.bfg', 'sub/tü.bfg']),
         'tc_arg': rng.choice(['abs', 'rel']),
-        'tc_ops': gen_tc_ops(rng, sensitive) if has_tc else None,
+        'tc_ops': tc_ops,
         'form': rng.choice(['rel', 'abs', 'into', 'frombuild']),
         'e1': e1, 'path1': path1, 'conf': conf, 'e2': e2,
         'cwd2': rng.choice(['root', 'scratch', 'builddir', 'srcdir', 'home2']),
@@ -1307,7 +1341,7 @@ def _run_e2e(case, res, S):
     bd = os.path.normpath(os.path.join(S, case['buildname']))
     files = dict(PROJECT)
     proj.write_tree(src, files)
-    for d in ('p1', 'p2', 'decoy', 'home2', 'inst'):
+    for d in ('p1', 'p2', 'decoy', 'home2', 'inst', 'sdk/include', 'poison'):
         os.makedirs(os.path.join(S, d), exist_ok=True)
     for d in ('p1', 'p2'):
         _script(os.path.join(S, d, 'mytool'), '#!/bin/sh\necho %s\n' % d)
@@ -1323,12 +1357,12 @@ def _run_e2e(case, res, S):
 
     mon1, mon2 = os.path.join(S, 'mon1.log'), os.path.join(S, 'mon2.log')
     path1 = _pathdirs(case['path1'], S)
-    e1 = core.base_env(inject=True, monitors='envmon')
+    e1 = core.base_env(inject=True, monitors='envmon,spawnmon')
     e1.update(_sub(case['e1'], S))
     e1['PATH'] = os.pathsep.join(path1)
     e1['BFG9000_VERIF_MONLOG'] = mon1
     path2 = _pathdirs(case['e2']['path'], S)
-    e2 = core.base_env(inject=True, monitors='envmon')
+    e2 = core.base_env(inject=True, monitors='envmon,spawnmon')
     e2.update(_sub(case['e2']['set'], S))
     for k in case['e2']['unset']:
         e2.pop(k, None)
@@ -1381,6 +1415,12 @@ def _run_e2e(case, res, S):
     if bf not in F0:
         res.inconclusive = 'configure wrote no %s: %s' % (bf, out[-300:])
         return
+
+    # the script-time program lookup is visible in the build file (else the
+    # PATH perturbation could not show in it)
+    tool1 = model_which('mytool', _pathdirs(case['path1'], S))
+    if tool1 and tool1.encode() in F0[bf]:
+        res.ev('e2e:program-lookup-in-buildfile')
 
     # ---- the snapshot holds what was chosen
     data = S0['data']
@@ -1517,7 +1557,7 @@ def _run_e2e(case, res, S):
                                        k: v for k, v in want_cur.items() if
                                        Sn['data']['variables']['current'].get(k)
                                        != v}))
-            collect_monitors(res, [mon1, mon2], wit, case)
+            collect_monitors(res, [mon1, mon2], wit, case, want_cur, want_init)
             return
         prev_files, prev_snap, prev_raw = Fn, Sn, rawn
         prev_name = '%s-regenerate-%s' % (mode, name)
@@ -1547,7 +1587,7 @@ def _run_e2e(case, res, S):
                         dict(wit, command='run ' + ' '.join(flag), rc=rc,
                              unexpected=[l for l in gl if l not in wl][:6],
                              missing=[l for l in wl if l not in gl][:6]))
-    collect_monitors(res, [mon1, mon2], wit, case)
+    collect_monitors(res, [mon1, mon2], wit, case, want_cur, want_init)
 
     nontriv = (e2['PATH'] != e1['PATH'] and e2.get('CC') != e1.get('CC') and
                e2.get('CFLAGS') != e1.get('CFLAGS'))
@@ -1558,7 +1598,8 @@ def _run_e2e(case, res, S):
                         'e2e:which-sensitive=%s' % sensitive,
                         'e2e:shared=%s,static=%s' % (conf['shared'], conf['static']),
                         'e2e:compdb=%s' % conf['compdb'],
-                        'e2e:undetectable-make=%s' % ('MAKE' in case['e1'])])
+                        'e2e:undetectable-make=%s' % ('MAKE' in case['e1']),
+                        'e2e:real-gcc=%s' % bool(case.get('realcc'))])
     for op in tc_ops:
         res.classes.add('tc:' + op[0])
         if op[0] in DERIVED:
@@ -1573,6 +1614,12 @@ def classify_regen(problem, stage, case, Sn, S0, want_cur, alt_cur, which_keys, 
     """Why did a regeneration not reproduce the configuration?  Computed from
     what was observed (classification only; the verdict is the byte compare)."""
     kind, detail = problem
+    # the project's system_executable('mytool'): present in several PATH dirs
+    if (kind == 'exit-status' and "'mytool'" in detail['output']) or \
+       (kind == 'buildfile-differs' and 'mytool' in detail.get('first', '') and
+            'mytool' in detail.get('second', '')):
+        return ('e2e', 'script-time-program-lookup-searches-ambient-PATH',
+                'system_executable')
     cur = Sn['data']['variables']['current']
     differing = sorted(k for k in set(cur) | set(want_cur)
                        if cur.get(k) != want_cur.get(k))
@@ -1609,10 +1656,99 @@ def env_mechanism(cmd, rc, got_lines, want_lines, e2):
     return ('e2e', 'env-output', cmd, 'differs-from-saved')
 
 
-def collect_monitors(res, logs, wit, case):
-    """Reports of the in-process invariant monitor from every bfg9000 process."""
+COMPILERS = ('vcc', 'vc++', 'vclang', 'vclang++', 'vfc', 'gcc', 'g++', 'cc', 'c++',
+             'clang', 'clang++', 'vwrap-gcc', 'vwrap-clang')
+ABSENT = '<absent>'
+
+
+def spawn_role(argv):
+    base = os.path.basename(argv[0]) if argv else '?'
+    if base in COMPILERS:
+        return 'compiler'
+    if base in ('var', 'ar', 'ld', 'vld'):
+        return 'binutils'
+    if base in ('env', 'make', 'gmake', 'ninja', 'pkg-config', 'pkgconf',
+                'mopack', 'java', 'javac'):
+        return base
+    return 'other'
+
+
+def judge_spawns(res, rep, wit, cur, init):
+    """Every child of a later bfg9000 invocation sees the saved variables: for
+    each name whose ambient value differs from both the saved current and the
+    saved initial value, the child must not show the ambient one (absence
+    counts as a value; an inherited environment is the ambient one)."""
+    ambient = rep.get('ambient') or {}
+    cmd = rep.get('cmd', '')
+    m = re.search(r'bfg9000 (\S+(?: --lazy)?)', cmd)
+    process = m.group(1) if m else cmd[-80:]
+    markers = sorted(k for k in set(ambient) | set(cur) | set(init)
+                     if ambient.get(k, ABSENT) != cur.get(k, ABSENT) and
+                     ambient.get(k, ABSENT) != init.get(k, ABSENT))
+    reported = set()
+    # Calibrated on the unchanged tree: every bfg9000 invocation sorts the
+    # available back ends (backends.list_backends -> <backend>.version(os.environ))
+    # by probing `$MAKE|make|gmake --version`, `$NINJA|ninja|ninja-build
+    # --version`, `$MSBUILD|msbuild|xbuild /version` in the ambient environment.
+    # Later invocations only look the saved back end up by name in that list, so
+    # the probe's answer is not an input of the regeneration.
+    probes = set()
+    for var, names, flag in (('MAKE', ['make', 'gmake'], '--version'),
+                             ('NINJA', ['ninja', 'ninja-build'], '--version'),
+                             ('MSBUILD', ['msbuild', 'xbuild'], '/version')):
+        if var in ambient:
+            try:
+                names = names + shlex.split(ambient[var])[:1]
+            except ValueError:
+                names = names + [ambient[var]]
+        probes.update((n, flag) for n in names)
+    for sp in rep.get('spawns', []):
+        res.ev('spawn:seen')
+        if len(sp['argv']) == 2 and tuple(sp['argv']) in probes and \
+           sp['env'] == ambient:
+            res.ev('spawn:backend-discovery-probe')
+            res.exclude('back-end discovery probe (list_backends) runs in the '
+                        'ambient environment; its answer is unused later')
+            continue
+        if '-Wp,-v' in sp['argv']:
+            res.ev('spawn:extra-env-probe-seen')
+        if not markers:
+            res.ev('spawn:ambient-equals-saved')
+            continue
+        res.ev('spawn:judged')
+        if '-Wp,-v' in sp['argv']:
+            res.ev('spawn:extra-env-probe-judged')
+        role = spawn_role(sp['argv'])
+        res.classes.add('spawn:' + role)
+        env = sp['env']
+        if env is None:
+            leaked = markers
+            how = 'inherited'
+        else:
+            res.ev('spawn:marker-comparisons', len(markers))
+            leaked = [k for k in markers
+                      if env.get(k, ABSENT) == ambient.get(k, ABSENT)]
+            how = 'mapping'
+        if leaked and (role, how) not in reported:
+            reported.add((role, how))
+            res.violate(('spawn', 'child-saw-ambient-variable', role), {
+                'context': 'e2e', 'process': process, 'child_argv': sp['argv'],
+                'child_env': how, 'leaked': leaked[:10],
+                'ambient': {k: ambient.get(k, ABSENT) for k in leaked[:6]},
+                'saved_current': {k: cur.get(k, ABSENT) for k in leaked[:6]},
+                'saved_initial': {k: init.get(k, ABSENT) for k in leaked[:6]},
+                'toolchain': wit.get('toolchain'),
+                'configure_argv': wit.get('configure_argv')})
+
+
+def collect_monitors(res, logs, wit, case, want_cur=None, want_init=None):
+    """Reports of the in-process monitors from every bfg9000 process."""
     for log in logs:
         for rep in read_monlog(log):
+            if rep.get('monitor') == 'spawnmon' and want_cur is not None:
+                res.ev('spawn:process-reports')
+                judge_spawns(res, rep, wit, want_cur, want_init)
+                continue
             if rep.get('monitor') != 'envmon':
                 continue
             res.ev('mon:subject-reports')
